@@ -2160,8 +2160,12 @@ where
 
 impl<S, T> Drop for Client<S, T> {
     fn drop(&mut self) {
-        let mut guard = self.client_server_map.lock();
-        guard.remove(&(self.process_id, self.secret_key));
+        // The object that serves a cancel request carries the key of the client to cancel,
+        // that client keeps its entry for as long as it holds its server.
+        if !self.cancel_mode {
+            let mut guard = self.client_server_map.lock();
+            guard.remove(&(self.process_id, self.secret_key));
+        }
 
         // Dirty shutdown
         // TODO: refactor, this is not the best way to handle state management.
